@@ -2,6 +2,7 @@ package flow
 
 import (
 	"github.com/alibaba/sentinel-golang/core/base"
+	"github.com/alibaba/sentinel-golang/core/stat"
 	"github.com/alibaba/sentinel-golang/core/system_metric"
 	rt "github.com/alibaba/sentinel-golang/zzverif/verifrt"
 )
@@ -229,4 +230,39 @@ func VerifC11WarmRace() {
 	for i := 0; i < nT; i++ {
 		rt.Assert(allowed[i] <= g.thr/float64(cold)*1.01+1e-9, "after idling, each of two simultaneous first requests is held to about threshold/coldFactor")
 	}
+}
+
+// VerifC11Bound: a warm-up rule loaded through the rule manager — with either control behaviour —
+// is warmed up by the traffic of its own resource: the calculator built by the manager reads the
+// previous second's admitted rate from the resource's statistic, so sustained demand drains the bucket
+// (and the rate climbs), and a resource without traffic keeps it full.
+func VerifC11Bound() {
+	t0 := uint64(2000000000000)
+	rt.SetClockMs(t0)
+	beh := []ControlBehavior{Reject, Throttling}[rt.Param("BEH")]
+	r := &Rule{Resource: "W", TokenCalculateStrategy: WarmUp, ControlBehavior: beh, Threshold: 10, WarmUpPeriodSec: 10, WarmUpColdFactor: 3, MaxQueueingTimeMs: 50}
+	if rt.Bool("perResource") {
+		LoadRulesOfResource("W", []*Rule{r})
+	} else {
+		LoadRules([]*Rule{r})
+	}
+	tcs := getTrafficControllerListFor("W")
+	if len(tcs) != 1 {
+		rt.Assert(false, "a valid warm-up rule gets a controller")
+		return
+	}
+	c, ok := tcs[0].flowCalculator.(*WarmUpTrafficShapingCalculator)
+	if !ok {
+		rt.Assert(false, "a warm-up rule gets the warm-up calculator")
+		return
+	}
+	node := stat.GetOrCreateResourceNode("W", base.ResTypeCommon)
+	n := int64(rt.U32n("admittedLastSecond", 4)) // 0..15 requests admitted in the second before the check
+	rt.SetClockMs(t0 + 500 + rt.U64n("ms0", 8)) // inside the bucket [t0+500, t0+1000)
+	node.AddCount(base.MetricEventPass, n)
+	rt.SetClockMs(t0 + 1000 + rt.U64n("ms", 9)) // up to 511 ms into the next second: the window one bucket back still holds that bucket
+	allowed := c.CalculateAllowedTokens(1, 0)
+	rt.Reach("c11.bound")
+	rt.Assert(c.storedTokens == int64(c.maxToken)-n, "the warm-up bucket (full after idling) is drained by what its resource admitted in the previous second")
+	rt.Assert(allowed <= 10 && allowed > 0, "the effective threshold lies in (0, threshold]")
 }
